@@ -38,6 +38,7 @@ def parsePayload : List String → Option Val
   | ["bool", "true"] => some (.bool true)
   | ["bool", "false"] => some (.bool false)
   | ["str", t] => (strTok t).map .str
+  | ["unit"] => some .unit
   | ["pair", n, t] => do
       let n ← n.toNat?; let t ← strTok t
       pure (.tuple (.cons (.u32 n) (.cons (.str t) .nil)))
@@ -79,6 +80,7 @@ def Val.beq : Val → Val → Bool
   | .i32 a, .i32 b => a == b
   | .str a, .str b => a == b
   | .none, .none => true
+  | .unit, .unit => true
   | .some a, .some b => Val.beq a b
   | .tuple a, .tuple b => Vals.beq a b
   | .seq a, .seq b => Vals.beq a b
